@@ -1564,12 +1564,18 @@ def concat(frames, axis=0, ignore_index=False, sort=False):
                 n = f._n
             elif f._n != n:
                 raise Unmodelled("concat(axis=1) of frames with different row counts (index alignment)")
+            perm = None
             if list(f.index) != list(frames[0].index):
-                raise Unmodelled("concat(axis=1) of differently indexed frames")
+                # pandas aligns the frames BY INDEX LABEL (outer join on the index); with the same set of unique labels in another order the rows
+                # of this frame are re-ordered to the first frame's label order (sort=False keeps the order of appearance)
+                a, b = list(frames[0].index), list(f.index)
+                if len(set(a)) != len(a) or len(set(b)) != len(b) or set(a) != set(b):
+                    raise Unmodelled("concat(axis=1) of frames whose indexes are not permutations of each other")
+                perm = [b.index(lab) for lab in a]
             for k, v in f._cols.items():
                 if k in d:
                     raise Unmodelled("concat(axis=1) duplicate column")
-                d[k] = list(v)
+                d[k] = list(v) if perm is None else [v[i] for i in perm]
         r = DataFrame(d, index=frames[0].index)
         r._n = n or 0
         return r
